@@ -108,4 +108,90 @@ theorem dsmLog_reports_only_conflicts (msgs : List DS) :
 example : runLog [] [DS.vote ⟨1, ⟨5, 0, 1, false, 1, 3, 3, 100⟩⟩, DS.vote ⟨1, ⟨5, 0, 1, false, 1, 4, 3, 100⟩⟩] ≠ [] := by
   decide
 
+
+/-! ### the evidence acceptance path (report transaction → PreValidate → DSR handler)
+
+`accepted r e`: `doubleSignReportTx.Verify` and `PreValidate` pass and `DSRHandler.DoExecuteSync`
+succeeds (Model/C06.lean; handler with fix F15).  Reading of the property's network clause: "same
+network (or unspecified)" is the agreement of the two messages' network ids with each other
+(`conflict`); the code does not compare them with the chain's own id (`ValidateNetwork` of votes
+and proposals is constantly true), so evidence whose two items both carry a foreign network id
+is accepted — recorded as an observation, not as a violation. -/
+
+/-- Exactly when a report transaction is accepted. -/
+theorem report_accepted_iff (r : Report) (e : Env) :
+    accepted r e = true ↔
+      r.hasData = true ∧ r.sender = From.none ∧ e.revOn = true ∧ e.callOk = true ∧
+      ∃ i1 i2 d1 d2 c,
+        r.items = [i1, i2] ∧ r.ord ≠ 2 ∧ r.tag ≠ Tag.other ∧
+        decodeItem r.tag i1 = some d1 ∧ decodeItem r.tag i2 = some d2 ∧ r.ctx = some c ∧
+        conflict d1 d2 = true ∧ d1.signer ∈ c ∧ d1.height ≤ e.blockHeight ∧
+        histGet e.history (d1.height - 2) = some c := by
+  unfold accepted
+  simp only [Bool.and_eq_true, beq_iff_eq]
+  rw [Proofs.preValidate_ok_iff, Proofs.handler_ok_iff]
+  constructor
+  · rintro ⟨⟨hv, hrev, hs, _⟩, _, hcall, d1, d2, c, hd, hc, hle, hin, hh⟩
+    obtain ⟨i1, i2, hit, ho, ht, h1, h2, hctx⟩ := (Proofs.decodeReport_some_iff r d1 d2 c).1 hd
+    have hdata : r.hasData = true := by
+      unfold verifyTx at hv
+      simp only [Bool.and_eq_true] at hv
+      exact hv.1.1
+    exact ⟨hdata, hs, hrev, hcall, i1, i2, d1, d2, c, hit, ho, ht, h1, h2, hctx, hc, hin, hle, hh⟩
+  · rintro ⟨hdata, hs, hrev, hcall, i1, i2, d1, d2, c, hit, ho, ht, h1, h2, hctx, hc, hin, hle, hh⟩
+    have hd := (Proofs.decodeReport_some_iff r d1 d2 c).2 ⟨i1, i2, hit, ho, ht, h1, h2, hctx⟩
+    refine ⟨⟨?_, hrev, hs, d1, d2, c, hd, hc, hin⟩, hs, hcall, d1, d2, c, hd, hc, hle, hin, hh⟩
+    unfold verifyTx
+    simp [hdata, hit, hs]
+
+/-- A report is accepted only if its two data items decode, are of one kind, and are a genuine
+    conflict (then `vote_conflict_iff` / `proposal_conflict_iff` say what that means), the signer
+    is a validator of the context, the evidence is not from a future height, and the context is
+    the validator list recorded for height − 2. -/
+theorem report_accepted_only_for_conflict (r : Report) (e : Env) (h : accepted r e = true) :
+    ∃ i1 i2 d1 d2 c,
+      r.items = [i1, i2] ∧ decodeItem r.tag i1 = some d1 ∧ decodeItem r.tag i2 = some d2 ∧
+      ((∃ v v2, d1 = DS.vote v ∧ d2 = DS.vote v2) ∨ (∃ p p2, d1 = DS.prop p ∧ d2 = DS.prop p2)) ∧
+      conflict d1 d2 = true ∧
+      r.ctx = some c ∧ d1.signer ∈ c ∧ d2.signer = d1.signer ∧
+      d1.height ≤ e.blockHeight ∧ histGet e.history (d1.height - 2) = some c := by
+  obtain ⟨_, _, _, _, i1, i2, d1, d2, c, hit, _, _, h1, h2, hctx, hc, hin, hle, hh⟩ :=
+    (report_accepted_iff r e).1 h
+  refine ⟨i1, i2, d1, d2, c, hit, h1, h2, Proofs.conflict_same_kind hc, hc, hctx, hin, ?_, hle, hh⟩
+  rcases Proofs.conflict_same_kind hc with ⟨v, v2, e1, e2⟩ | ⟨p, p2, e1, e2⟩
+  · subst e1 e2
+    exact ((vote_conflict_iff v v2).1 (by simpa [conflict] using hc)).1.symm
+  · subst e1 e2
+    exact ((proposal_conflict_iff p p2).1 (by simpa [conflict] using hc)).1.symm
+
+example : accepted
+    { hasData := true, tag := Tag.vote, ord := 0, ctx := some [0, 1, 2], sender := From.none,
+      items := [Item.msg (DS.vote ⟨1, ⟨5, 0, 1, false, 1, 3, 3, 100⟩⟩), Item.msg (DS.vote ⟨1, ⟨5, 0, 1, false, 1, 4, 3, 100⟩⟩)] }
+    { revOn := true, blockHeight := 9, history := [(2, [0, 1, 2])], callOk := true } = true := by decide
+
+/-- The handler by itself (PreValidate is skipped for already validated transitions) succeeds
+    only for a genuine conflict as well — this is what fix F15 restores. -/
+theorem handler_succeeds_only_for_conflict (r : Report) (e : Env) (h : handler r e = Hnd.ok) :
+    ∃ d1 d2 c, decodeReport r = some (d1, d2, c) ∧ conflict d1 d2 = true ∧ d1.signer ∈ c ∧
+      d1.height ≤ e.blockHeight ∧ histGet e.history (d1.height - 2) = some c := by
+  obtain ⟨_, _, d1, d2, c, hd, hc, hle, hin, hh⟩ := (Proofs.handler_ok_iff r e).1 h
+  exact ⟨d1, d2, c, hd, hc, hin, hle, hh⟩
+
+/-- Identical items are never accepted (they are not a conflict). -/
+theorem report_identical_items_rejected (r : Report) (e : Env) (i : Item) (h : r.items = [i, i]) :
+    accepted r e = false := by
+  cases ha : accepted r e with
+  | false => rfl
+  | true =>
+    obtain ⟨i1, i2, d1, d2, c, hit, h1, h2, _, hc, _⟩ := report_accepted_only_for_conflict r e ha
+    rw [h] at hit
+    simp only [List.cons.injEq, and_true] at hit
+    obtain ⟨e1, e2⟩ := hit
+    subst e1 e2
+    rw [h1] at h2
+    have : d1 = d2 := by simpa using h2
+    subst this
+    rw [conflict_irrefl] at hc
+    cases hc
+
 end Goloop.C06
